@@ -1223,9 +1223,9 @@ Inductive step_kind (s s' : st) (a a' : astate) : Prop :=
                   holds a' = [fresh_job (log s)] -> step_kind s s' a a'
 | sk_end j stt m : log s' = log (append s (BJobEnded j stt m)) -> holds a = [j] -> holds a' = [] -> step_kind s s' a a'.
 
-Lemma astep_kind K s a : step_kind s (fst (astep K s a)) a (snd (astep K s a)).
+Lemma astep_gen_kind fx K s a : step_kind s (fst (astep_gen fx K s a)) a (snd (astep_gen fx K s a)).
 Proof.
-  destruct a; cbn [astep].
+  destruct a; cbn [astep_gen].
   - destruct (c_sched c); [|apply sk_read; auto].
     destruct (plan_cuts K (c_stride c) (c_maxnew c) (log s)); apply sk_read; auto.
   - destruct (if c_block c then find_inflight K (log s) else None); apply sk_read; auto.
@@ -1244,6 +1244,8 @@ Proof.
     eapply sk_other; [reflexivity | discriminate | discriminate |]. destruct rest; auto.
   - apply sk_read; auto.
 Qed.
+Lemma astep_kind K s a : step_kind s (fst (astep K s a)) a (snd (astep K s a)).
+Proof. apply astep_gen_kind. Qed.
 
 Lemma held_split pre a post : held (pre ++ a :: post) = held pre ++ holds a ++ held post.
 Proof. unfold held. rewrite flat_map_app. reflexivity. Qed.
@@ -1389,7 +1391,7 @@ Lemma reads_steps K fuel : forall s pre a post,
   sys_steps K (s, pre ++ a :: post) (fst (reads K fuel s a), pre ++ snd (reads K fuel s a) :: post).
 Proof.
   induction fuel as [|f IH]; intros s pre a post; cbn [reads]; [apply sys_refl|].
-  destruct (is_append a || is_done a); [apply sys_refl|].
+  destruct (is_park a || is_done a); [apply sys_refl|].
   pose proof (astep_steps K s pre a post) as H1. destruct (astep K s a) as [s1 a1]. cbn [fst snd] in H1.
   eapply sys_steps_trans; [exact H1 | apply IH].
 Qed.
@@ -1397,7 +1399,7 @@ Qed.
 Lemma quantum_steps K s pre a post :
   sys_steps K (s, pre ++ a :: post) (fst (quantum K s a), pre ++ snd (quantum K s a) :: post).
 Proof.
-  unfold quantum. destruct (is_append a); [|apply reads_steps].
+  unfold quantum. destruct (is_park a); [|apply reads_steps].
   pose proof (astep_steps K s pre a post) as H1. destruct (astep K s a) as [s1 a1]. cbn [fst snd] in H1.
   eapply sys_steps_trans; [exact H1 | apply reads_steps].
 Qed.
@@ -1426,7 +1428,7 @@ Qed.
    create a checkpoint for the same cut point (docs/03_contracts/compaction.md calls this replay-safe: latest wins) *)
 Definition race_call : call := {| c_sched := true; c_stride := 2; c_maxnew := 1; c_block := true; c_exec := true |}.
 Definition race_state : st := fst (run_ops real_consts st0 [OMsg 0 1; OMsg 1 2] []).
-Definition race_end : st := fst (run_sched real_consts race_state [AStart race_call; AStart race_call] [0; 1; 0; 0; 0; 0; 1; 1; 1; 1]).
+Definition race_end : st := fst (run_sched real_consts race_state [AStart race_call; AStart race_call] [0; 1; 0; 1; 0; 0; 0; 0; 1; 1; 1; 1]).
 Lemma race_facts :
   valid (log race_state) /\ bracket_ok (log race_state)
   /\ job_ids (log race_end) = [1; 2] /\ ended_ids (log race_end) = [1; 2]
@@ -1473,3 +1475,24 @@ Proof.
   assert (Hkin : In k (ckpts l)) by (rewrite Hsplit; apply in_or_app; right; right; exact Hk).
   specialize (Hmax Hkin Hks). lia.
 Qed.
+
+(* ---------- a completed job creates precisely what its job_spawned frame announced ---------- *)
+Definition spawn_plans (l : list ev) : list (N * list N) :=
+  flat_map (fun e => match ebody e with BJobSpawned j p _ => [(j, map pl_seq p)] | _ => [] end) l.
+Definition ended_made (l : list ev) : list (N * N * list N) :=
+  flat_map (fun e => match ebody e with BJobEnded j st m => [(j, st, map cr_seq m)] | _ => [] end) l.
+
+(* before the fix (S20): the scheduler handed its own earlier plan to the job.  A schedule call plans cut 2, an auto
+   call checkpoints cut 2 meanwhile, the schedule call's spawn_job re-plans (cut 1, announced in job_spawned) but the
+   job runs the stale plan: it checkpoints cut 2 again and never creates cut 1 *)
+Definition mm_state : st := fst (run_ops real_consts st0 [OMsg 0 1; OMsg 1 2] []).
+Definition mm_actors : list astate :=
+  [AStart {| c_sched := true; c_stride := 1; c_maxnew := 1; c_block := false; c_exec := true |};
+   AStart {| c_sched := false; c_stride := 1; c_maxnew := 1; c_block := false; c_exec := true |}].
+Definition mm_schedule : list N := [0; 0; 1; 1; 1; 1; 1; 1; 1; 1; 0; 0; 0; 0; 0; 0; 0; 0].
+Definition mm_unfixed : list ev := log (fst (run_fine (astep_unfixed real_consts) mm_state mm_actors mm_schedule)).
+Definition mm_fixed : list ev := log (fst (run_fine (astep real_consts) mm_state mm_actors mm_schedule)).
+Lemma mm_facts :
+  spawn_plans mm_unfixed = [(1, [2]); (2, [1])] /\ ended_made mm_unfixed = [(1, 0, [2]); (2, 0, [2])]
+  /\ spawn_plans mm_fixed = [(1, [2]); (2, [1])] /\ ended_made mm_fixed = [(1, 0, [2]); (2, 0, [1])].
+Proof. repeat split; vm_compute; reflexivity. Qed.
